@@ -102,21 +102,27 @@ void w_call(void)
   _Bool accepted = c >= 0 && !forbidden && ccost != ~0U;
   int ret = MOCK_FUNC(exps, "f", "int(int)", &x);
 
-  /* ---- C01/C15: rejected <=> exactly one fatal report, exception, no effect */
+  /* ---- rejected <=> exactly one fatal report, exception, no effect.  Same checks in the three cases, attributed to
+     the properties that speak about that case: no candidate (C01), forbidding candidate (C01, C07), candidate not
+     permitted by its sequences (C01, C05) */
   if (!accepted) {
-    __CPROVER_assert(vp_rep_n == 1, "[C01,C05,C07,C15] POST call.rejected.exactly_one_report");
-    __CPROVER_assert(vp_rep_n < 1 || vp_rep[0].sev == 0, "[C01,C15] POST call.rejected.report_is_fatal");
-    __CPROVER_assert(vp_exc == VP_EXC_VIOLATION, "[C01] POST call.rejected.does_not_return_normally");
-    __CPROVER_assert(vp_ok_n == 0, "[C16] POST call.rejected.no_ok_report");
-    if (!tracing) __CPROVER_assert(vp_tr_n == 0, "[C17] POST call.rejected.nothing_traced_without_tracer");
-    for (int i = 0; i < N; i++) {
-      __CPROVER_assert(hb[i]->call_count == in_cnt[i], "[C01,C03,C05,C07] FRAME call.rejected.no_call_count_changes");
-      __CPROVER_assert(in_ring_cm(SENT_ACTIVE, i) == (in_where[i] == 0) && in_ring_cm(SENT_SAT, i) == (in_where[i] == 1), "[C01,C05] FRAME call.rejected.lists_unchanged");
-      for (int k = 0; k < 2; k++) if (k < in_K[i])
-        __CPROVER_assert(handle_linked(i, k) == in_linked[i][k], "[C05] FRAME call.rejected.sequences_unchanged");
-    }
-    for (int e = 0; e < VP_EV_CAP; e++) if (e < vp_ev_n)
-      __CPROVER_assert(vp_ev[e].kind == VP_EV_COND, "[C01,C07,C08] FRAME call.rejected.no_side_effect_or_return_evaluated");
+#define REJECTED_CHECKS(T, CASE) \
+    __CPROVER_assert(vp_rep_n == 1, "[" T "] POST call.rejected." CASE ".exactly_one_report"); \
+    __CPROVER_assert(vp_rep_n < 1 || vp_rep[0].sev == 0, "[" T ",C15] POST call.rejected." CASE ".report_is_fatal"); \
+    __CPROVER_assert(vp_exc == VP_EXC_VIOLATION, "[" T "] POST call.rejected." CASE ".does_not_return_normally"); \
+    __CPROVER_assert(vp_ok_n == 0, "[C16] POST call.rejected." CASE ".no_ok_report"); \
+    if (!tracing) __CPROVER_assert(vp_tr_n == 0, "[C17] POST call.rejected." CASE ".nothing_traced_without_tracer"); \
+    for (int i = 0; i < N; i++) { \
+      __CPROVER_assert(hb[i]->call_count == in_cnt[i], "[" T ",C03] FRAME call.rejected." CASE ".no_call_count_changes"); \
+      __CPROVER_assert(in_ring_cm(SENT_ACTIVE, i) == (in_where[i] == 0) && in_ring_cm(SENT_SAT, i) == (in_where[i] == 1), "[" T "] FRAME call.rejected." CASE ".lists_unchanged"); \
+      for (int k = 0; k < 2; k++) if (k < in_K[i]) \
+        __CPROVER_assert(handle_linked(i, k) == in_linked[i][k], "[" T "] FRAME call.rejected." CASE ".sequences_unchanged"); \
+    } \
+    for (int e = 0; e < VP_EV_CAP; e++) if (e < vp_ev_n) \
+      __CPROVER_assert(vp_ev[e].kind == VP_EV_COND, "[" T ",C08] FRAME call.rejected." CASE ".no_side_effect_or_return_evaluated");
+    if (c < 0) { REJECTED_CHECKS("C01", "no_match") }
+    else if (forbidden) { REJECTED_CHECKS("C01,C07", "forbidden") }
+    else { REJECTED_CHECKS("C01,C05", "out_of_sequence") }
     if (forbidden) {
       __CPROVER_assert(vp_rep[0].file == nm_file[c] && vp_rep[0].line == 100 + c, "[C07,C15] POST call.forbidden.report_carries_the_forbidding_expectation_location");
       __CPROVER_assert(cm[c]->reported, "[C04,C07] POST call.forbidden.marked_reported");
